@@ -28,17 +28,49 @@ from .. import translate as T
 from . import _an
 
 PROP = "C20"
-GEN_REGIONS = ["Attrs"]
+GEN_REGIONS = ["Attrs", "ResultQueries"]
 THEOREMS = {
     "SpecKitV.Props.AttrsA": ["psd_alias", "asd_sq", "ps_def", "csd_alias", "cs_def", "tf_alias", "cf_def", "cf_db_def", "deg_rad",
                               "cf_rad_def", "Gyx_conj", "Hyx_conj", "none_table_cross", "none_table_auto"],
     "SpecKitV.Lemmas.Rms": ["interp_at_grid", "interp_clamp_left", "interp_clamp_right", "interp_between"],
+    # the translated result-side glue (Gen/ResultQueries, regenerated each run) IS the hand model
+    "SpecKitV.Props.ResultQueriesGen": [
+        "gen_compute_assemble_eq_model", "gen_compute_field_of_row", "gen_compute_assemble_perm", "gen_compute_no_junk", "gen_compute_sanitised",
+        "gen_getattr_eq_model", "gen_getattr_private", "gen_getattr_unknown", "gen_getattr_run_eq_model", "gen_lazy_cache_sound",
+        "gen_lazy_run_empty", "gen_lazy_order_independent", "gen_getattr_formula_first", "gen_touched_are_formulas", "gen_lazy_run_dynamic",
+        "gen_get_measurement_eq_model", "gen_get_measurement_at_grid_real", "gen_get_measurement_at_grid_cplx",
+        "gen_get_measurement_between_real", "gen_get_measurement_between_cplx", "gen_get_measurement_clamp_real",
+        "gen_get_measurement_clamp_cplx", "gen_get_measurement_array",
+        "gen_to_dataframe_eq_model", "gen_to_dataframe_columns", "gen_result_dir_spec", "gen_dir_served", "gen_dir_public",
+        "RQ.mem_sortedSetDiff", "RQ.nodup_sortedSetDiff"],
 }
 CONTRACTS = ["np.interp(x, xp, fp) for strictly increasing xp is the clamped piecewise-linear interpolant Model.interp (tied by correspondence "
              "on real results: grid points, interior points, both clamps)",
              "control.mag2db(x) = 20*log10(x); np.angle(z) = atan2(im z, re z) and np.angle(z, deg=True) = that times 180/pi; np.abs = modulus",
-             "np.unwrap / np.rad2deg (cf_rad_unwrapped, cf_deg_unwrapped couple the bins of one result) are not modelled: real-code oracle only"]
-ASSUMPTIONS = ["theorems are over the reals for the Lean translation of SpectrumResult.__getattr__ (one bin at a time); floating-point rounding is "
+             "np.unwrap / np.rad2deg (cf_rad_unwrapped, cf_deg_unwrapped couple the bins of one result) are not modelled: real-code oracle only",
+             # contracts of the translated region ResultQueries (definitions in lean/SpecKitV/Np/ResultQueries.lean; each exercised by the
+             # generated-vs-real differential runs of corr_result_queries)
+             "Np.isfinite x := (x - x == 0) stands for np.isfinite; Np.nanToNum x a b c stands for np.nan_to_num(x, nan=a, posinf=b, neginf=c) "
+             "(identity over the reals; copy=False = in place)",
+             "Np.interp x xp fp := x.map (Model.interp xp fp) stands for np.interp(x, xp, fp) (elementwise over x, any shape)",
+             "Np.Row8 = the 8-tuple rows of SpectrumAnalyzer._lpsd_core [i, XY, MXX, MYY, S1*S1, S2, M2, elapsed] by position (the kinds int / complex / "
+             "float x6 are re-checked against the source of _lpsd_core each run); np.empty = arbitrary contents; a[i] = v with a Python index = "
+             "Arr.set a (Np.pyIndex a.n i) v",
+             "Np.startswith / Np.endswith / Np.lower stand for str.startswith / str.endswith / str.lower; Np.dictGet / dictHas / cacheStore = "
+             "dict lookup / `in` / item assignment on a lookup dictionary (association list, newest binding first); Np.odictSet = item assignment "
+             "on an insertion-ordered dict; Np.formulaReads = the cache entries left by the nested self.<attr> reads of a formula "
+             "(the read sets Gen.touchedAuto / Gen.touchedCross are extracted from the AST by partial evaluation and compared with the real cache)",
+             "Np.sortedSetDiff xs S stands for sorted(set(xs) - S) on str (code-point order); Np.sortedSet xs for sorted(set(xs))",
+             "Np.Query / Np.asarrayQ / Np.isscalarQ / Np.item stand for the freq argument (Python or NumPy scalar vs anything else), "
+             "np.asarray(freq, dtype=float), np.isscalar(freq), ndarray.item() of a size-1 array",
+             "Np.frameSetIndex d k stands for pd.DataFrame(d).set_index(k): index = column k, remaining columns in dictionary order; callable / "
+             "isinstance(., np.ndarray) / .shape of an attribute value are abstract descriptions (callable, isNdarray, shape) of the attribute table"]
+ASSUMPTIONS = ["translated each run and proved equal to the hand model (Props/ResultQueriesGen): compute()'s assembly of the _lpsd_core rows "
+               "(hypotheses: distinct non-negative bin indices, i.e. the contract of _lpsd_core(np.arange(nf))), the cache protocol of "
+               "SpectrumResult.__getattr__ (hypothesis: the name is public and is a formula name or a key of the result dictionary; otherwise "
+               "AttributeError, also proved), get_measurement (all real inputs), to_dataframe's column selection and __dir__'s name list "
+               "(over an abstract attribute table); get_rms, copy / deepcopy / pickle, len, repr remain real-code oracle only",
+               "theorems are over the reals for the Lean translation of SpectrumResult.__getattr__ (one bin at a time); floating-point rounding is "
                "covered by the stated tolerances (forward bounds scaled by the data), not by theorem",
                "asd_sq assumes XX >= 0, S2 >= 0, fs > 0 (true of every computed result)",
                "interp_* theorems assume a strictly increasing frequency grid (C03); get_measurement's scalar/array shape handling and its "
@@ -1093,15 +1125,23 @@ def corr_interp(ctx, P: C.Part) -> None:
             scale = float(np.max(np.abs(y))) if len(y) else 0.0
             model_re = ctx.driver.floats("interp " + C.arr(f) + " " + C.arr(np.real(y)) + " " + C.arr(xs))
             model_im = ctx.driver.floats("interp " + C.arr(f) + " " + C.arr(np.imag(y)) + " " + C.arr(xs)) if cplx else [0.0] * len(xs)
-            with quiet():
-                impl_arr = res.get_measurement(np.array(xs), which)
+            try:
+                with quiet():
+                    impl_arr = res.get_measurement(np.array(xs), which)
+            except LIBERR as ex:  # noqa  (the real method raises on a finite query of a finite table: a disagreement, not an infrastructure error)
+                P.disagreements.append({"op": "interp", "which": which, "mode": mode, "impl_raised": repr(ex)[:160], "x": xs, "case": recipe_summary(rec)})
+                continue
             for k, x in enumerate(xs):
                 P.cases += 1
                 cls = ref_interp(f, np.real(y).astype(float), x)[2]
                 P.hit(f"interp.{cls}")
                 P.nontrivial.add(("interp", mode, which, cls, min(len(f), 3)))
-                with quiet():
-                    impl = complex(impl_arr[k]) if (k % 3) else complex(res.get_measurement(float(x), which))
+                try:
+                    with quiet():
+                        impl = complex(impl_arr[k]) if (k % 3) else complex(res.get_measurement(float(x), which))
+                except LIBERR as ex:  # noqa
+                    P.disagreements.append({"op": "interp", "which": which, "mode": mode, "impl_raised": repr(ex)[:160], "x": x, "case": recipe_summary(rec)})
+                    continue
                 m = complex(model_re[k], model_im[k])
                 tol = 0.0 if cls in ("grid", "below", "above") else 1e-12 * scale
                 if not (abs(impl.real - m.real) <= tol and abs(impl.imag - m.imag) <= tol):
@@ -1109,6 +1149,292 @@ def corr_interp(ctx, P: C.Part) -> None:
                                             "f": f.tolist(), "y_re": np.real(y).tolist(), "y_im": np.imag(y).tolist(), "case": recipe_summary(rec)})
             if i < 2:
                 P.sample({"op": "interp", "which": which, "mode": mode, "nf": len(f), "x": xs[-3], "impl": complex(impl_arr[-3]), "model": complex(model_re[-3], model_im[-3])})
+
+
+# ---------------------------------------------------------------- generated region ResultQueries vs the real code
+def _eqnan(a: float, b: float) -> bool:
+    return (a == b) or (a != a and b != b)
+
+
+def _rq_results(rng: np.random.Generator, P: C.Part, what: str, kinds: List[Tuple[str, bool]]):
+    for kind, cross in kinds:
+        try:
+            rec = gen_recipe(rng, kind, cross)
+            if rec["fn"] == "compute_spectrum":
+                rec["kw"]["Jdes"] = min(int(rec["kw"].get("Jdes", 10)), 25)
+            yield rec, build(rec)
+        except LIBERR as ex:  # noqa
+            P.notes.append(f"{what}: could not build {kind}: {ex!r}"[:160])
+
+
+def rq_assemble(ctx, P: C.Part, rng: np.random.Generator) -> None:
+    """Gen.compute_assemble (driver, Float) fed with the rows of the REAL _lpsd_core — shuffled, optionally with non-finite components
+    injected — vs the `_data` arrays of the result the REAL compute() builds from exactly those rows"""
+    n_cases = ctx.scale(80, 400)
+    for ci in range(n_cases):
+        kind = ["full", "band", "equalK-Lmin", "full"][ci % 4]
+        cross = bool(ci % 2)
+        inject = ci % 3 == 2
+        try:
+            rec = gen_recipe(rng, kind, cross)
+            rec["kw"]["Jdes"] = min(int(rec["kw"].get("Jdes", 10)), 30)
+            kw = dict(rec["kw"])
+            if kw.get("band") is not None:
+                kw["band"] = (float(kw["band"][0]), float(kw["band"][1]))
+            with quiet():
+                an = _an.analyzer(np.asarray(rec["data"], dtype=float), float(rec["fs"]), **kw)
+            orig = an._lpsd_core
+            box: Dict[str, Any] = {}
+
+            def patched(f_indices, _orig=orig, _box=box):
+                rows = [list(r) for r in _orig(f_indices)]
+                rows = [rows[j] for j in rng.permutation(len(rows))]
+                if inject and rows:
+                    for _ in range(int(rng.integers(1, 6))):
+                        r = rows[int(rng.integers(0, len(rows)))]
+                        bad = float(rng.choice([np.nan, np.inf, -np.inf]))
+                        pos = int(rng.integers(1, 8))
+                        if pos == 1:
+                            r[1] = complex(bad, r[1].imag) if rng.random() < 0.5 else complex(r[1].real, bad)
+                        else:
+                            r[pos] = bad
+                _box["rows"] = rows
+                return rows
+            an._lpsd_core = patched
+            with quiet():
+                res = an.compute()
+        except LIBERR as ex:  # noqa
+            P.notes.append(f"rq-assemble: could not compute {kind}: {ex!r}"[:160])
+            continue
+        rows = box.get("rows")
+        if rows is None:
+            P.disagreements.append({"op": "rq_assemble", "problem": "compute() did not call _lpsd_core", "case": recipe_summary(rec)})
+            continue
+        nf = int(res.nf)
+        line = f"rq_assemble {nf} {len(rows)}"
+        for r in rows:
+            z = complex(r[1])
+            line += f" {int(r[0])} {C.f2h(z.real)} {C.f2h(z.imag)} " + " ".join(C.f2h(float(v)) for v in r[2:8])
+        reply = ctx.driver.ask(line)
+        P.cases += 1
+        P.hit(f"rq.assemble.{'cross' if cross else 'auto'}.{'injected-nonfinite' if inject else 'shuffled'}")
+        P.nontrivial.add(("rq-assemble", kind, cross, inject, min(nf, 4)))
+        if reply.startswith("ERR"):
+            P.disagreements.append({"op": "rq_assemble", "model_error": reply[:160], "case": recipe_summary(rec)})
+            continue
+        got = [[C.h2f(t) for t in part.split()] for part in reply.split("|")]
+        d = vars(res)["_data"]
+        want = [d["XX"], d["YY"], np.real(d["XY"]), np.imag(d["XY"]), d["S12"], d["S2"], d["M2"], d["compute_t"]]
+        labels = ["XX", "YY", "Re XY", "Im XY", "S12", "S2", "M2", "compute_t"]
+        for lab, g, w in zip(labels, got, want):
+            w = [float(x) for x in np.asarray(w).ravel()]
+            if len(g) != len(w) or not all(_eqnan(a, b) for a, b in zip(g, w)):
+                bad = [k for k, (a, b) in enumerate(zip(g, w)) if not _eqnan(a, b)][:5]
+                P.disagreements.append({"op": "rq_assemble", "field": lab, "first_bad_bins": bad, "model": [g[k] for k in bad], "impl": [w[k] for k in bad],
+                                        "nf": nf, "len_model": len(g), "rows": [[int(r[0])] + [complex(r[1])] + [float(v) for v in r[2:8]] for r in rows][:40],
+                                        "case": recipe_summary(rec)})
+                break
+        if ci < 1:
+            P.sample({"op": "rq_assemble", "nf": nf, "row_order": [int(r[0]) for r in rows][:12], "XX_model": got[0][:3], "XX_impl": [float(x) for x in d["XX"][:3]]})
+
+
+def rq_getattr(ctx, P: C.Part, rng: np.random.Generator, names: List[str]) -> None:
+    """Gen.getattr_protocol (driver) vs real attribute reads over random access sequences: outcome of each read (raises / formula value /
+    the very object stored in `_data`) and the set of cached names after each read"""
+    from ..regions import result_queries as RQ
+    try:
+        tabs = RQ.touched_tables(C.REPO)
+    except Exception as ex:  # noqa
+        P.disagreements.append({"op": "rq_getattr", "problem": f"nested-read tables could not be extracted: {ex!r}"[:200]})
+        return
+    kinds = [("full", False), ("full", True), ("single", False), ("single", True), ("fake", True), ("equalK-Lmin", False), ("band", True), ("fake", False)]
+    for rec, res in _rq_results(rng, P, "rq-getattr", kinds[:ctx.scale(8, 8)]):
+        mode = "cross" if res.iscsd else "auto"
+        tab = tabs["Cross" if res.iscsd else "Auto"]
+        keys = [k for k in data_keys(res) if k.isidentifier()]
+        skip = lambda n: n in vars(res) or hasattr(type(res), n)        # real instance / class attributes never reach __getattr__
+        pool = [n for n in names + ["G"] if tab.get(n) is not None and not skip(n)]
+        pool_data = [k for k in keys if not skip(k)]
+        extra = ["_zzz", "__nope__", "_", "nonexistent", "psd2", "Gzz", "PSD", "cf_", "f2", "XX_"]
+        if mode == "auto":
+            extra += ["foo_dev", "bar_error"]          # formula-table names with value None (cross: their branch also reads self.coh — not tabulated)
+        for rep in range(ctx.scale(12, 40)):
+            seq = [str(rng.choice(pool)) if rng.random() < 0.6 else (str(rng.choice(pool_data)) if rng.random() < 0.55 else str(rng.choice(extra)))
+                   for _ in range(int(rng.integers(8, 30)))]
+            vars(res)["_cache"].clear()
+            impl = []
+            for n in seq:
+                try:
+                    v = read(res, n)
+                    tag = ("D:" + n) if (n in vars(res)["_data"] and v is vars(res)["_data"][n]) else ("F:" + n)
+                except AttributeError:
+                    tag = "RAISE"
+                except Exception as ex:  # noqa
+                    tag = "EXC:" + type(ex).__name__
+                impl.append(tag + "#" + ",".join(sorted(vars(res)["_cache"].keys())))
+            reply = ctx.driver.ask(f"rq_getattr {mode} {len(keys)} " + " ".join(keys) + f" {len(seq)} " + " ".join(seq))
+            model = reply.split(" ") if reply else []
+            P.cases += len(seq)
+            P.hit(f"rq.getattr.{mode}.{rec['kind']}")
+            for n, a in zip(seq, impl):
+                P.hit("rq.getattr.read." + ("raise" if a.startswith("RAISE") else "data" if a.startswith("D:") else "formula"))
+            P.nontrivial.add(("rq-getattr", mode, rec["kind"], tuple(seq[:6])))
+            if model != impl:
+                k = next((j for j, (a, b) in enumerate(zip(model, impl)) if a != b), min(len(model), len(impl)))
+                P.disagreements.append({"op": "rq_getattr", "mode": mode, "sequence": seq, "first_difference_at": k, "name": seq[k] if k < len(seq) else None,
+                                        "model": model[k] if k < len(model) else None, "impl": impl[k] if k < len(impl) else None,
+                                        "case": recipe_summary(rec)})
+            if rep == 0 and mode == "cross":
+                P.sample({"op": "rq_getattr", "mode": mode, "sequence": seq[:5], "impl": impl[:5], "model": model[:5]})
+        vars(res)["_cache"].clear()
+
+
+def rq_meas(ctx, P: C.Part, rng: np.random.Generator) -> None:
+    """Gen.get_measurement (driver; np.interp = Model.interp in Float) vs the real method: real and complex quantities, at grid points, between,
+    outside; Python scalar, NumPy scalar, 0-d / 1-D / 2-D / empty arrays, lists; non-finite queries (ValueError)"""
+    kinds = [("full", False), ("full", True), ("fake", True), ("single", True), ("band", False), ("equalK-band", True), ("fake", False), ("single", False)]
+    for rec, res in _rq_results(rng, P, "rq-meas", kinds * ctx.scale(3, 10)):
+        f = np.asarray(res.f, dtype=float)
+        if len(f) > 120 or (len(f) > 1 and not np.all(np.diff(f) > 0)):
+            continue
+        mode = "cross" if res.iscsd else "auto"
+        for which in (["Hxy", "ccoh", "coh", "Gxy"] if res.iscsd else ["asd", "Gxx"]):
+            y = read(res, which)
+            if y is None or not np.all(np.isfinite(y)):
+                P.hit("rq.meas.skipped-nonfinite-table")
+                continue
+            cplx = bool(np.iscomplexobj(y))
+            scale = float(np.max(np.abs(y))) if len(y) else 0.0
+            tbl = ("c " + C.arr(np.real(y)) + " " + C.arr(np.imag(y))) if cplx else ("r " + C.arr(y))
+            xs = queries(rng, f)
+            forms: List[Tuple[str, Any]] = []
+            for x in xs[:6]:
+                forms.append(("pyfloat", float(x)))
+            forms.append(("npfloat", np.float64(xs[int(rng.integers(0, len(xs)))])))
+            forms.append(("0d", np.array(float(xs[int(rng.integers(0, len(xs)))]))))
+            forms.append(("1d", np.array(xs, dtype=float)))
+            forms.append(("list", [float(x) for x in xs[:3]]))
+            forms.append(("2d", np.array((xs + xs)[:2 * (len(xs) // 2) * 1], dtype=float).reshape(2, -1) if len(xs) >= 2 else np.zeros((1, 1)) + xs[0]))
+            forms.append(("empty", np.array([], dtype=float)))
+            forms.append(("nonfinite-scalar", float(rng.choice([np.nan, np.inf, -np.inf]))))
+            forms.append(("nonfinite-array", np.array([xs[0], np.nan, xs[-1]])))
+            for how, q in forms:
+                flat = [float(v) for v in np.asarray(q, dtype=float).ravel()]
+                scalar = bool(np.isscalar(q))
+                qline = ("s " + C.f2h(flat[0])) if scalar else ("a " + C.arr(flat))
+                reply = ctx.driver.ask("rq_meas " + C.arr(f) + " " + tbl + " " + qline)
+                P.cases += 1
+                P.hit(f"rq.meas.{how}.{'complex' if cplx else 'real'}")
+                P.nontrivial.add(("rq-meas", mode, which, how, min(len(f), 3)))
+                try:
+                    with quiet():
+                        out = res.get_measurement(q, which)
+                    impl_kind = None
+                except ValueError:
+                    out, impl_kind = None, "none"
+                except Exception as ex:  # noqa
+                    out, impl_kind = None, "EXC:" + type(ex).__name__
+                problem = None
+                if impl_kind is None:
+                    is_sc = type(out) in (float, complex, int)          # a Python scalar (the result of .item()); NumPy scalars / 0-d arrays have a shape
+                    impl_c = bool(np.iscomplexobj(out))
+                    impl_kind = ("s" if is_sc else "a") + ("C" if impl_c else "R")
+                    if not is_sc and np.shape(out) != np.shape(q):
+                        problem = f"shape {np.shape(out)} for a query of shape {np.shape(q)}"
+                toks = reply.split()
+                mk = toks[0] if toks else ""
+                if problem is None and mk != impl_kind:
+                    problem = f"kind: model {mk}, impl {impl_kind}"
+                if problem is None and impl_kind != "none":
+                    mv = [C.h2f(t) for t in toks[1:]]
+                    iv = np.asarray(out).ravel()
+                    iv = [c for z in iv for c in (float(np.real(z)), float(np.imag(z)))] if impl_kind[1] == "C" else [float(v) for v in iv]
+                    if len(mv) != len(iv):
+                        problem = f"length: model {len(mv)}, impl {len(iv)}"
+                    else:
+                        for k, (a, b) in enumerate(zip(mv, iv)):
+                            x = flat[k // 2 if impl_kind[1] == "C" else k]
+                            cls = ref_interp(f, np.real(y).astype(float), x)[2]
+                            tol = 0.0 if cls in ("grid", "below", "above") else 1e-12 * scale
+                            if not (abs(a - b) <= tol):
+                                problem = f"value at x={x!r} ({cls}): model {a!r}, impl {b!r}, tol {tol}"
+                                break
+                if problem:
+                    P.disagreements.append({"op": "rq_meas", "which": which, "mode": mode, "query_form": how, "query": flat[:12], "problem": problem,
+                                            "f": f.tolist(), "y_re": np.real(y).tolist(), "y_im": np.imag(y).tolist(), "case": recipe_summary(rec)})
+
+
+def _attr_status(res, name: str) -> str:
+    try:
+        v = read(res, name)
+    except AttributeError:
+        return "E"
+    if callable(v):
+        return "C"
+    if isinstance(v, np.ndarray):
+        return "A:" + ",".join(str(int(k)) for k in v.shape)
+    return "O"
+
+
+def rq_dataframe(ctx, P: C.Part, rng: np.random.Generator) -> None:
+    """Gen.to_dataframe (driver) on the attribute table of a real result (name -> raises / callable / ndarray shape / other, over dir(result)) vs the
+    index and the columns of the real to_dataframe(); Gen.result_dir vs the real __dir__ / dir()"""
+    kinds = [("full", False), ("full", True), ("single", False), ("single", True), ("equalK-Lmin", True), ("fake", False), ("band", True), ("equalK-band", False)]
+    for rec, res in _rq_results(rng, P, "rq-df", kinds * ctx.scale(3, 10)):
+        mode = "cross" if res.iscsd else "auto"
+        # __dir__
+        dflt = [n for n in object.__dir__(res)]
+        keys = data_keys(res)
+        ok_tok = lambda n: isinstance(n, str) and n and " " not in n
+        if all(ok_tok(n) for n in dflt + keys):
+            reply = ctx.driver.ask(f"rq_dir {len(dflt)} " + " ".join(dflt) + f" {len(keys)} " + " ".join(keys))
+            P.cases += 1
+            P.hit(f"rq.dir.{mode}")
+            impl_dir = list(type(res).__dir__(res))
+            if reply.split(" ") != impl_dir or sorted(impl_dir) != list(dir(res)):
+                model_dir = reply.split(" ")
+                P.disagreements.append({"op": "rq_dir", "mode": mode, "model_only": sorted(set(model_dir) - set(impl_dir))[:10],
+                                        "impl_only": sorted(set(impl_dir) - set(model_dir))[:10], "same_set": set(model_dir) == set(impl_dir),
+                                        "case": recipe_summary(rec)})
+        # to_dataframe
+        dnames = [n for n in dir(res)]
+        if not all(ok_tok(n) for n in dnames):
+            continue
+        table = [(n, _attr_status(res, n)) for n in dnames]
+        reply = ctx.driver.ask(f"rq_df {len(table)} " + " ".join(f"{n} {st}" for n, st in table))
+        P.cases += 1
+        P.hit(f"rq.df.{rec['kind']}.{mode}")
+        P.nontrivial.add(("rq-df", rec["kind"], mode, min(int(res.nf), 3)))
+        try:
+            with quiet():
+                df = res.to_dataframe()
+            impl = [str(df.index.name)] + [str(c) for c in df.columns]
+        except Exception as ex:  # noqa
+            impl = ["EXC:" + type(ex).__name__]
+        model = reply.split(" ")
+        if reply == "none":
+            model = ["none"]
+        if model != impl:
+            P.disagreements.append({"op": "rq_df", "mode": mode, "kind": rec["kind"], "nf": int(res.nf), "model_only": [c for c in model if c not in impl][:10],
+                                    "impl_only": [c for c in impl if c not in model][:10], "order_differs": sorted(model) == sorted(impl),
+                                    "table": {n: st for n, st in table if st != "C"}, "case": recipe_summary(rec)})
+        elif len(P.samples) < 5:
+            P.sample({"op": "rq_df", "mode": mode, "kind": rec["kind"], "nf": int(res.nf), "columns": len(impl) - 1, "index": impl[0]})
+
+
+def corr_result_queries(ctx, P: C.Part, names: List[str]) -> None:
+    """generated region ResultQueries (Gen/ResultQueries.lean, executed by the driver) vs the real code it was generated from"""
+    rng = np.random.default_rng(int(ctx.rng.integers(0, 2 ** 31 - 1)))        # child generator: the existing streams above are not shifted
+    t0 = __import__("time").time()
+    for fn, args in ((rq_assemble, ()), (rq_getattr, (names,)), (rq_meas, ()), (rq_dataframe, ())):
+        if ctx.time_left() < 40:
+            P.notes.append(f"result-queries correspondence: time budget reached before {fn.__name__}")
+            break
+        try:
+            fn(ctx, P, rng, *args)
+        except RuntimeError as ex:       # the driver does not serve the op (generated region broken)
+            P.disagreements.append({"op": fn.__name__, "model_error": str(ex)[:200]})
+    P.notes.append(f"result-queries correspondence: {__import__('time').time() - t0:.1f}s")
 
 
 def correspondence(ctx) -> C.Part:
@@ -1121,6 +1447,8 @@ def correspondence(ctx) -> C.Part:
     corr_none_tables(ctx, P, names)
     # (c) interpolation
     corr_interp(ctx, P)
+    # (d) the translated result-side glue: compute() assembly, __getattr__ cache protocol, get_measurement, to_dataframe / __dir__
+    corr_result_queries(ctx, P, names)
     return P
 
 
